@@ -10,8 +10,8 @@ from .common import V, GOENV, run
 
 DEP = "package dep\n\ntype A struct{ N int }\n\nfunc NewA() A { return A{N: 7} }\n\nvar Exported = \"dep-exported\"\n"
 DEP2 = "package dep\n\ntype B struct{ M string }\n\nfunc NewB() B { return B{M: \"other\"} }\n"
-A_GO = ("package corp\n\nimport (\n\t\"example.com/c/corp/dep\"\n\tdep2 \"example.com/c/corp/other/dep\"\n)\n\n"
-        "type Root struct {\n\tA dep.A\n\tB dep2.B\n}\n\nfunc NewRoot(a dep.A, b dep2.B) Root { return Root{A: a, B: b} }\n")
+A_GO = ("package corp\n\nimport (\n\t\"example.com/c/corp/dep\"\n\tdepx \"example.com/c/corp/other/dep\"\n)\n\n"
+        "type Root struct {\n\tA dep.A\n\tB depx.B\n}\n\nfunc NewRoot(a dep.A, b depx.B) Root { return Root{A: a, B: b} }\n")
 MAIN = ("package main\n\nimport (\n\t\"fmt\"\n\n\t\"example.com/c/corp\"\n)\n\nfunc main() {\n\tfor i, s := range corp.RunAll() {\n\t\tfmt.Printf(\"%d: %s\\n\", i, s)\n\t}\n}\n")
 
 
